@@ -30,10 +30,9 @@ impl Header {
   }
 
   pub fn get_title(&self) -> String {
-    unsafe {
-      let title = std::str::from_utf8_unchecked(&self.title);
-      String::from(title.trim_end_matches(std::char::from_u32_unchecked(0)))
-    }
+    // the title bytes come straight from the file and need not be UTF-8
+    let title = String::from_utf8_lossy(&self.title);
+    String::from(title.trim_end_matches('\0'))
   }
 
   pub fn get_cart_type(&self) -> MBCType {
